@@ -1207,3 +1207,14 @@ where
 
     Ok((out, gas_spent))
 }
+
+/// Verification hooks (compiled only under `cfg(kani)`): expose private helpers to the Kani harnesses in /verif.
+#[cfg(kani)]
+pub mod verif_kani {
+    use super::Key;
+
+    /// See [`super::next_key`].
+    pub fn next_key(key: Key) -> Option<Key> {
+        super::next_key(key)
+    }
+}
